@@ -7,6 +7,7 @@ import (
 	"encoding/json"
 	"errors"
 	"fmt"
+	"sort"
 	"sync"
 	"testing"
 	"time"
@@ -48,17 +49,93 @@ type c31Pop struct {
 type c31Plan struct {
 	Steps []c31Step `json:"steps"`
 	Pops  []c31Pop  `json:"pops,omitempty"` // consumer script, cyclic; empty = instant successful writes
+	// steady trickle (after the steps): one packet every TrickleGapMs, TrickleCount times. For such a plan
+	// every packet must be handed over within c31TrickleBoundBuf of its own push.
+	TrickleGapMs int `json:"trickle_gap_ms,omitempty"`
+	TrickleCount int `json:"trickle_count,omitempty"`
 }
 
 type c31BufCase struct {
 	Plans []c31Plan `json:"plans"`
 }
 
+var c31NewBufMu sync.Mutex
+
+// c31NewBuf builds the buffer with the package's own constructor (so that whatever it initialises is
+// initialised) and then drops the 400 preallocated 64 KB slots: push/pop/swap only move the slot
+// slices around and never look inside them. One at a time, to bound the transient 26 MB.
 func c31NewBuf() *pktBuffer {
-	b := &pktBuffer{}
-	b.cond = sync.NewCond(&b.mu)
+	c31NewBufMu.Lock()
+	defer c31NewBufMu.Unlock()
+	b := newPktBuffer()
+	for i := range b.r {
+		b.r[i] = nil
+	}
+	for i := range b.w {
+		b.w[i] = nil
+	}
 	return b
 }
+
+// ----- scheduling monitor: tells a starved test process from a slow balancer -----
+
+type c31Sched struct {
+	mu    sync.Mutex
+	wakes []time.Time // ring of the reference goroutine's wake-ups (it sleeps 10 ms at a time)
+	next  int
+}
+
+var (
+	c31SchedOnce sync.Once
+	c31SchedMon  = &c31Sched{wakes: make([]time.Time, 12000)}
+)
+
+func c31SchedStart() *c31Sched {
+	c31SchedOnce.Do(func() {
+		go func() {
+			for {
+				time.Sleep(10 * time.Millisecond)
+				now := time.Now()
+				c31SchedMon.mu.Lock()
+				c31SchedMon.wakes[c31SchedMon.next%len(c31SchedMon.wakes)] = now
+				c31SchedMon.next++
+				c31SchedMon.mu.Unlock()
+			}
+		}()
+	})
+	return c31SchedMon
+}
+
+// starved reports whether the test process was visibly short of CPU between from and to: the reference
+// goroutine was late by more than 500 ms at once, or got less than 40% of its wake-ups.
+func (m *c31Sched) starved(from, to time.Time) (bool, string) {
+	m.mu.Lock()
+	defer m.mu.Unlock()
+	n, worst := 0, time.Duration(0)
+	prev := from
+	var ws []time.Time
+	for _, w := range m.wakes {
+		if !w.IsZero() && !w.Before(from) && !w.After(to) {
+			ws = append(ws, w)
+		}
+	}
+	sort.Slice(ws, func(i, j int) bool { return ws[i].Before(ws[j]) })
+	for _, w := range ws {
+		n++
+		if d := w.Sub(prev); d > worst {
+			worst = d
+		}
+		prev = w
+	}
+	if d := to.Sub(prev); d > worst {
+		worst = d
+	}
+	want := int(to.Sub(from) / (10 * time.Millisecond))
+	info := fmt.Sprintf("reference goroutine: %d of ~%d wake-ups, longest gap %v", n, want, worst.Round(time.Millisecond))
+	return worst > 500*time.Millisecond || n*10 < want*4, info
+}
+
+const c31TrickleBoundBuf = 4 * time.Second // batch timeout 1 s + slack
 
 func c31Pkt(seq int) []byte {
 	body := []byte(fmt.Sprintf("c31:%08d:", seq))
@@ -81,6 +158,7 @@ var c31ErrWrite = errors.New("scripted write error")
 
 func c31RunPlan(p c31Plan) (res c31PlanResult) {
 	res.classes = map[string]bool{}
+	sched := c31SchedStart()
 	b := c31NewBuf()
 	var (
 		mu        sync.Mutex // protects the fields below (producer and consumer goroutines)
@@ -181,6 +259,40 @@ func c31RunPlan(p c31Plan) (res c31PlanResult) {
 	}()
 
 	lastPush := time.Now()
+	pushOne := func(si int) (abort bool) {
+		mu.Lock()
+		seq := len(accepted)
+		mu.Unlock()
+		pkt := c31Pkt(seq)
+		cp := append([]byte(nil), pkt...)
+		b.mu.Lock()
+		wiBefore := b.wi
+		b.mu.Unlock()
+		// the packet must be registered before push returns it to the consumer's view
+		mu.Lock()
+		accepted = append(accepted, cp)
+		acceptAt = append(acceptAt, time.Now())
+		handedAt = append(handedAt, time.Time{})
+		mu.Unlock()
+		_, ok := b.push(pkt)
+		if !ok {
+			mu.Lock()
+			if handedAt[seq].IsZero() { // not accepted: take the registration back
+				accepted, acceptAt, handedAt = accepted[:seq], acceptAt[:seq], handedAt[:seq]
+			} else {
+				fail("step %d: push reported failure but the packet was handed to the sender", si)
+			}
+			mu.Unlock()
+			class("push-refused")
+			if wiBefore < bufferLen {
+				res.violation = fmt.Sprintf("step %d: push refused although the buffer held %d of %d packets just before", si, wiBefore, bufferLen)
+				return true
+			}
+			return false
+		}
+		lastPush = time.Now()
+		return false
+	}
 	for si, st := range p.Steps {
 		if st.GapMs > 0 {
 			time.Sleep(time.Duration(st.GapMs) * time.Millisecond)
@@ -189,37 +301,9 @@ func c31RunPlan(p c31Plan) (res c31PlanResult) {
 			class("idle-gap-over-1s")
 		}
 		for k := 0; k < st.Burst; k++ {
-			mu.Lock()
-			seq := len(accepted)
-			mu.Unlock()
-			pkt := c31Pkt(seq)
-			cp := append([]byte(nil), pkt...)
-			b.mu.Lock()
-			wiBefore := b.wi
-			b.mu.Unlock()
-			// the packet must be registered before push returns it to the consumer's view
-			mu.Lock()
-			accepted = append(accepted, cp)
-			acceptAt = append(acceptAt, time.Now())
-			handedAt = append(handedAt, time.Time{})
-			mu.Unlock()
-			_, ok := b.push(pkt)
-			if !ok {
-				mu.Lock()
-				if handedAt[seq].IsZero() { // not accepted: take the registration back
-					accepted, acceptAt, handedAt = accepted[:seq], acceptAt[:seq], handedAt[:seq]
-				} else {
-					fail("step %d: push reported failure but the packet was handed to the sender", si)
-				}
-				mu.Unlock()
-				class("push-refused")
-				if wiBefore < bufferLen {
-					res.violation = fmt.Sprintf("step %d: push refused although the buffer held %d of %d packets just before", si, wiBefore, bufferLen)
-					return
-				}
-				continue
+			if pushOne(si) {
+				return
 			}
-			lastPush = time.Now()
 		}
 		mu.Lock()
 		v := violation
@@ -227,6 +311,44 @@ func c31RunPlan(p c31Plan) (res c31PlanResult) {
 		if v != "" {
 			res.violation = v
 			return
+		}
+	}
+	// steady trickle: every packet has its own deadline
+	trickle := p.TrickleCount > 0 && p.TrickleGapMs > 0
+	firstOpen := 0 // packets below this index were handed over in time
+	tooLate := func() bool {
+		now := time.Now()
+		mu.Lock()
+		defer mu.Unlock()
+		for ; firstOpen < len(acceptAt); firstOpen++ {
+			i := firstOpen
+			var d time.Duration
+			if handedAt[i].IsZero() {
+				if d = now.Sub(acceptAt[i]); d <= c31TrickleBoundBuf {
+					return false // the oldest open packet is still within its bound
+				}
+			} else if d = handedAt[i].Sub(acceptAt[i]); d <= c31TrickleBoundBuf {
+				continue
+			}
+			starved, info := sched.starved(acceptAt[i], acceptAt[i].Add(d))
+			msg := fmt.Sprintf("steady trickle (one packet every %d ms): packet #%d was not handed to the sender within %v of its own push (waited %v so far; %d packets pushed, %d handed over); %s",
+				p.TrickleGapMs, i, c31TrickleBoundBuf, d.Round(time.Millisecond), len(acceptAt), handed, info)
+			if starved {
+				res.inconclusive = "machine starved: " + msg
+			} else {
+				res.violation = msg
+			}
+			return true
+		}
+		return false
+	}
+	if trickle {
+		class("steady-trickle")
+		for k := 0; k < p.TrickleCount; k++ {
+			time.Sleep(time.Duration(p.TrickleGapMs) * time.Millisecond)
+			if pushOne(len(p.Steps)) || tooLate() {
+				return
+			}
 		}
 	}
 	// idle tail: nothing else will ever arrive; everything accepted must still reach the sender
@@ -245,6 +367,9 @@ func c31RunPlan(p c31Plan) (res c31PlanResult) {
 		mu.Unlock()
 		if v != "" {
 			res.violation = v
+			return
+		}
+		if trickle && tooLate() {
 			return
 		}
 		if h == a {
